@@ -16,7 +16,7 @@ RULE = ("For every validated field named in the statement (RTFPage, RTFBody, RTF
         "values. Positions are enumerated exhaustively for shapes up to 3x3 with 2-3 representative illegal "
         "values per field; Hypothesis adds random illegal values (strings outside the legal set, zero/negative "
         "numbers), shapes up to 4x5 and random legal fillers. Oracle: construction raises ValueError (pydantic "
-        "ValidationError included; FileNotFoundError for a missing figure) and the same case with the illegal "
+        "ValidationError included; FileNotFoundError for a missing figure, also when the file existed and was used earlier in the process) and the same case with the illegal "
         "value replaced by a legal one constructs. Non-trivial = illegal value not in first position or inside "
         "a nested list; distinct by sha1 of case.")
 ASSUMPTIONS = ["legal sets are taken from the documentation / constants of the pinned tree (border styles, "
@@ -123,7 +123,7 @@ def enumerate_cases(tier):
             yield {"cls": "RTFFigure", "field": field, "kind": "figure", "form": "scalar", "shape": [1, 1],
                    "pos": [0, 0], "bad": bad, "fill": [legal[0]]}
     for rule in DOC_RULES:
-        for variant in range(8 if rule in ("multi_section_column_missing", "margin_length") else 4):
+        for variant in range(8 if rule in ("multi_section_column_missing", "margin_length", "figure_missing_file") else 4):
             yield {"cls": "RTFDocument", "field": rule, "kind": "doc", "form": "rule", "shape": [1, 1],
                    "pos": [variant, 0], "bad": None, "fill": []}
 
@@ -263,6 +263,19 @@ def doc_rule(rule, variant, bad: bool):
     if rule == "figure_missing_file":
         p = _png(os.path.join(work, "c19ok.png"))
         missing = os.path.join(work, "does", "not", "exist.png")
+        if variant % 8 >= 4:
+            # history: the file existed and was used by an earlier RTFFigure (and encode), then it was removed
+            gone = os.path.join(work, f"c19gone{variant % 4}.png")
+            val = [gone, [gone], [p, gone], [p, gone, p]][variant % 4]
+
+            def build():
+                _png(gone)
+                first = rtf.RTFFigure(figures=gone)
+                rtf.RTFDocument(rtf_figure=first).rtf_encode()
+                if bad:
+                    os.remove(gone)
+                return rtf.RTFFigure(figures=val)
+            return build
         val = [missing, [missing], [p, missing], [p, missing, p]][variant % 4] if bad else [p, [p], [p, p], [p, p, p]][variant % 4]
         return lambda: rtf.RTFFigure(figures=val)
     if rule == "margin_length":
